@@ -157,7 +157,7 @@ def rand_history(rng):
 
 
 def gen(ctx):
-    cs = table() + pv.cross_kind_cases()
+    cs = table() + pv.cross_kind_cases() + pv.back_to_back_cases()
     cs += storeput_cases(ctx.rng, 0)
     n = 300 if ctx.tier == "quick" else 8000
     cs += [rand_history(ctx.rng) for _ in range(n)]
@@ -188,7 +188,7 @@ def oracle(case, out):
         return v
     if not isinstance(out, dict) or "results" not in out:
         return [("harness", "no result: %r" % (out,))]
-    if case.get("schedule") is not None:
+    if not pv.is_serial(case):
         return []
     for i, (d, r) in enumerate(zip(case["deliveries"], out["results"])):
         stored = [p for p in r["puts"] if not p.get("refused_by_driver")]
